@@ -166,6 +166,9 @@ func cmdRun(args []string) int {
 	}
 	o := applyHarnessOpts(defaultOpts(*tier), h, *tier)
 	o.Workers = *workers
+	if s := os.Getenv("GOSYM_SOLVER"); s != "" {
+		o.Solver = s
+	}
 	res := ld.explore(h, o)
 	printResult(res, *verbose)
 	if *native && len(res.Results) > 0 {
